@@ -3,3 +3,5 @@
 package ast
 
 func verifBeforeSend(*IterVisitor, Node) {}
+
+func verifAfterSend(*IterVisitor, Node) {}
